@@ -148,11 +148,15 @@ func DefaultKnobs() Knobs {
 		ValFee:    "0.01", StartPO: 1, StartWrk: 1, StartBeacon: 1, GovSecs: 20, Balance: "1000000000000000000"}
 }
 
-var allFlags = []string{"vesting", "extrafee", "nest", "overflow", "longdur", "huge", "denomchange", "minaccepts63", "addr255", "idwrap", "bigfee", "stakebond", "dupsigners", "granter"}
+var allFlags = []string{"group", "vesting", "extrafee", "nest", "overflow", "longdur", "huge", "denomchange", "minaccepts63", "addr255", "idwrap", "bigfee", "stakebond", "dupsigners", "granter"}
 
 // flagRates: probability (percent) that a feature flag is on in a run, per property. Flags tied to
 // a known finding stay rare everywhere except in the property that owns the finding.
 func flagRate(prop, flag string) int {
+	if flag == "group" {
+		// x/group proposals executing module messages: only where the oracles know about them
+		return map[string]int{"C06": 40, "C18": 30}[prop]
+	}
 	base := map[string]int{"vesting": 15, "extrafee": 15, "nest": 30, "overflow": 10, "longdur": 8, "huge": 10, "denomchange": 4, "minaccepts63": 3, "addr255": 8, "idwrap": 0, "bigfee": 5, "stakebond": 15, "dupsigners": 5, "granter": 20}[flag]
 	boost := map[string][]string{
 		"C05": {"vesting", "granter", "extrafee"}, "C04": {"granter", "vesting"}, "C06": {"extrafee", "nest", "bigfee", "overflow"}, "C08": {"overflow", "nest"},
@@ -395,6 +399,9 @@ func sortedU64[V any](m map[uint64]V) []uint64 {
 }
 
 func (g *Gen) category() string {
+	if g.Flags["group"] && g.pct(7) {
+		return "grp"
+	}
 	tot := 0
 	keys := sortedKeys(g.P.W)
 	for _, k := range keys {
@@ -440,6 +447,8 @@ func (g *Gen) genTx(w *World) []TxSpec {
 		return []TxSpec{g.wrap(w, MsgSpec{T: "feegrant.grant", A: a, B: g.otherActor(a)})}
 	case "attack":
 		return []TxSpec{g.attackTx(w)}
+	case "grp":
+		return []TxSpec{g.groupTx(w)}
 	case "nest":
 		return g.nestTx(w)
 	case "multi":
@@ -987,6 +996,11 @@ func (g *Gen) addrIdx(w *World, bech string) int {
 			return -(100 + n)
 		}
 	}
+	for k := uint64(1); k <= w.M.Grp.N && k < 900; k++ {
+		if PolicyAddr(k).String() == bech {
+			return -(2000 + int(k))
+		}
+	}
 	for _, c := range []int{AddrGov, AddrEnterprise, AddrStream, AddrFeeCollector, AddrBonded, AddrDistr} {
 		if AddrOf(w.Actors, c).String() == bech {
 			return c
@@ -1302,4 +1316,62 @@ func (g *Gen) genNoise(ntx int) NoiseSpec {
 		ns.Pos = pick(g.R, []int{-3, -2, -1, g.R.Intn(ntx + 1), g.R.Intn(ntx + 1), g.R.Intn(ntx + 1)})
 	}
 	return ns
+}
+
+// groupTx: x/group traffic. A one-member group's policy account (a 32-byte address) acts through
+// proposals that are voted and executed inside the submitting transaction (EXEC_TRY): it registers
+// WRKChains/BEACONs, records, buys storage, funds streams. Proposers are the admin or, sometimes,
+// an outsider (the group module must refuse).
+func (g *Gen) groupTx(w *World) TxSpec {
+	gm := w.M.Grp
+	if gm.N == 0 || g.pct(15) && gm.N < 6 {
+		a := g.actor()
+		w.Fault("group.create")
+		return TxSpec{Signer: a, Gas: ampleGas, Msgs: []MsgSpec{{T: "grp.create", A: a}}}
+	}
+	k := 1 + uint64(g.R.Intn(int(gm.N)))
+	code := -(2000 + int(k))
+	pol := PolicyAddr(k).String()
+	admin := g.actorByAddr(w, gm.Admin[k])
+	if g.pct(12) {
+		// fund the policy account so that it can pay for streams
+		return g.wrap(w, MsgSpec{T: "bank.send", A: admin, B: code, Amt: u64s(uint64(1000 + g.R.Intn(1000000))), Denom: pick(g.R, []string{Native, Denom2})})
+	}
+	var inner MsgSpec
+	kind := pick(g.R, []string{"wrk", "bcn"})
+	rm := w.M.Wrk
+	if kind == "bcn" {
+		rm = w.M.Bcn
+	}
+	var own []uint64
+	for _, id := range rm.ids() {
+		if rm.Regs[id].Owner == pol {
+			own = append(own, id)
+		}
+	}
+	switch x := g.R.Intn(100); {
+	case x < 12:
+		r := g.actor()
+		inner = MsgSpec{T: "str.create", A: code, B: r, Amt: u64s(uint64(60 * (1 + g.R.Intn(50)))), Denom: Native, N: 1}
+	case len(own) == 0 || x < 35:
+		inner = MsgSpec{T: kind + ".register", A: code, S: []string{randStr(g.R, 6), randStr(g.R, 8), randStr(g.R, 6), "geth"}}
+	case x < 85:
+		id := pick(g.R, own)
+		reg := rm.Regs[id]
+		if kind == "wrk" {
+			inner = MsgSpec{T: "wrk.record", A: code, Id: id, N: reg.LastKey + 1, S: []string{randStr(g.R, 8), randStr(g.R, 8), "1", "2", "3"}}
+		} else {
+			inner = MsgSpec{T: "bcn.record", A: code, Id: id, N: uint64(w.Now.Unix()), S: []string{randStr(g.R, 8)}}
+		}
+	default:
+		inner = MsgSpec{T: kind + ".purchase", A: code, Id: pick(g.R, own), N: uint64(1 + g.R.Intn(2))}
+	}
+	proposer := admin
+	if g.pct(12) {
+		proposer = g.otherActor(admin)
+	}
+	w.Fault("group.proposal_exec")
+	ts := TxSpec{Signer: proposer, Gas: ampleGas * 2, Msgs: []MsgSpec{{T: "grp.submit", A: proposer, Id: k, N: 1, Inner: []MsgSpec{inner}}}}
+	g.setFee(w, &ts)
+	return ts
 }
